@@ -129,6 +129,11 @@ func GenCid(r *Rand) []byte {
 	}
 	code := mhCodes[r.Intn(len(mhCodes))]
 	dl := []int{0, 1, 4, 20, 32, 64}[r.Intn(6)]
+	if r.Chance(1, 12) {
+		// long CIDs (an identity multihash inlines arbitrary data): around 128 and 256 bytes of binary CID
+		code = mh.IDENTITY
+		dl = []int{120, 123, 124, 125, 128, 200, 251, 252, 253, 300}[r.Intn(10)]
+	}
 	m, err := mh.Encode(r.Bytes(dl), code)
 	if err != nil {
 		m, _ = mh.Encode(r.Bytes(32), mh.SHA2_256)
@@ -224,7 +229,17 @@ func GenVal(r *Rand, cfg GenCfg, depth int) Val {
 				if len(key) > 0 && !cfg.ValidUTF8 {
 					key[r.Intn(len(key))] ^= byte(1 << uint(r.Intn(8)))
 				} else {
-					key = append(key, 'x')
+					// an extension of an earlier key: by a letter, by NUL bytes, by a control character
+					switch r.Intn(4) {
+					case 0:
+						key = append(key, 0)
+					case 1:
+						key = append(key, 0, 0)
+					case 2:
+						key = append(key, 1)
+					default:
+						key = append(key, 'x')
+					}
 				}
 			} else {
 				key = GenStrBytes(r, cfg)
